@@ -10,6 +10,193 @@ ID_SPECS = {'new': 'ensures r.0 == index', 'as_usize': 'ensures r == self.0', 'i
 P = ['C03']
 HERE = os.path.dirname(os.path.abspath(__file__))
 
+def _load(name):
+    p = os.path.join(os.path.dirname(os.path.abspath(__file__)), '..', name, 'unit.py')
+    spec = importlib.util.spec_from_file_location('unit_' + name + '_for_mini', p)
+    m = importlib.util.module_from_spec(spec)
+    spec.loader.exec_module(m)
+    return m
+
+umin = _load('u_min')
+TRACE = [Replace('E5', 'Self::trace_partition($_);', '', occ='all', why='trace-only helper (log::trace! of the partition): no effect on results'),
+         Replace('E5', 'Self::trace_transitions_to_groups($_);', '', occ='all', why='trace-only helper')]
+
+initial_partition = Fn(F_MIN, 'Minimizer', 'calculate_initial_partition', ret='r', props=P, attrs='#[verifier::loop_isolation(false)] #[verifier::allow_complex_invariants]',
+    spec="""
+requires d_wf(*dfa)
+ensures
+    // group 0: the non-accepting states; one further group per accepted token type, holding exactly the states accepting it
+    r@.len() >= 1, r@.len() <= dfa.states@.len() + 1,
+    part_ok(pv(r@), dfa.states@.len() as int), acc_homog(*dfa, pv(r@)),
+    forall|s: int| 0 <= s < dfa.states@.len() ==> (#[trigger] in_grp(pv(r@), 0, s) <==> !dfa.end_states@[s].0),
+    forall|g: int| 1 <= g < r@.len() ==> #[trigger] grp_nonempty(pv(r@), g),
+""",
+    edits=[
+        Ins('body_start', None, """
+broadcast use axiom_stateid_cmp;
+let ghost n = dfa.states@.len() as int;
+let ghost es = dfa.end_states@;
+"""),
+        Replace('E11', 'dfa.end_states.iter().filter_map(|(accept, id)| $body).collect::<Vec<_>>()', """{
+    let mut __out: Vec<TerminalID> = Vec::new();
+    let mut __it0 = dfa.end_states.iter();
+    let ghost rem = __it0.remaining();
+    proof {
+        assert(rem.len() == es.len());
+        assert(forall|i: int| 0 <= i < rem.len() ==> *#[trigger] rem[i] == es[i]);
+    }
+    loop
+        invariant
+            __it0.obeys_prophetic_iter_laws(), __it0.decrease() is Some,
+            rem.len() == es.len(), forall|i: int| 0 <= i < rem.len() ==> *#[trigger] rem[i] == es[i],
+            __it0.remaining().len() <= rem.len(),
+            forall|q: int| 0 <= q < __it0.remaining().len() ==> #[trigger] __it0.remaining()[q] == rem[rem.len() - __it0.remaining().len() + q],
+            __out@.len() <= rem.len() - __it0.remaining().len(),
+            forall|t: TerminalID| #[trigger] __out@.contains(t) <==> exists|j: int| 0 <= j < rem.len() - __it0.remaining().len() && #[trigger] es[j] == (true, t),
+        ensures __it0.remaining().len() == 0,
+        decreases __it0.decrease()->0
+    {
+        let ghost pos = rem.len() - __it0.remaining().len();
+        let ghost before = __out@;
+        let Some(__x) = __it0.next() else { break };
+        proof { assert(*__x == es[pos]); }
+        let (accept, id) = __x;
+        let __y: Option<TerminalID> = $body;
+        if let Some(__t) = __y { __out.push(__t); }
+        proof {
+            assert forall|t: TerminalID| #[trigger] __out@.contains(t) <==> exists|j: int| 0 <= j < pos + 1 && #[trigger] es[j] == (true, t) by {
+                if __out@ != before { lemma_push_contains_pair(before, es[pos].1, t); }
+                assert(before.contains(t) <==> exists|j: int| 0 <= j < pos && #[trigger] es[j] == (true, t));
+                if exists|j: int| 0 <= j < pos + 1 && #[trigger] es[j] == (true, t) {
+                    let j = choose|j: int| 0 <= j < pos + 1 && #[trigger] es[j] == (true, t);
+                    if j == pos { assert(es[pos].0 && es[pos].1 == t); }
+                }
+                if es[pos].0 && es[pos].1 == t { assert(es[pos] == (true, t)); }
+            }
+        }
+    }
+    __out
+}""", why='iter().filter_map(|p| f(p)).collect::<Vec<_>>() is the loop pushing the Some results in order (std definitions); the closure parameter pattern becomes a let pattern, the closure body is kept verbatim'),
+        Ins('after_stmt', 'let mut terminal_map = $_;', """
+let ghost tm0 = terminal_map@;
+"""),
+        Ins('after_stmt', 'terminal_map.sort();', """
+let ghost tm1 = terminal_map@;
+proof {
+    assert(has_ord_key::<TerminalID>()) by { axiom_key_terminalid(TerminalID(0)); }
+}
+"""),
+        Ins('after_stmt', 'terminal_map.dedup();', """
+let ghost tmap = terminal_map@;
+proof {
+    assert(key_injective::<TerminalID>()) by {
+        assert forall|x: TerminalID, y: TerminalID| #![trigger ord_key(x), ord_key(y)] ord_key(x) == ord_key(y) implies x == y by { axiom_key_terminalid(x); axiom_key_terminalid(y); }
+    }
+    lemma_dedup_sorted(tm1);
+    lemma_dedup_len(tm1);
+    assert(tmap == dedup_adj(tm1));
+    assert(tmap.no_duplicates()) by {
+        assert forall|i: int, j: int| 0 <= i < tmap.len() && 0 <= j < tmap.len() && i != j implies tmap[i] != tmap[j] by {
+            if i < j { assert(ord_key(tmap[i]) < ord_key(tmap[j])); } else { assert(ord_key(tmap[j]) < ord_key(tmap[i])); }
+        }
+    }
+    assert forall|t: TerminalID| #[trigger] tmap.contains(t) <==> exists|j: int| 0 <= j < n && #[trigger] es[j] == (true, t) by {
+        assert(tmap.contains(t) <==> tm1.contains(t));
+        assert(tm1.contains(t) <==> tm0.contains(t));
+    }
+    assert(tmap.len() <= n);
+}
+"""),
+        Replace('E6', 'let mut initial_partition = vec![StateGroup::new(); number_of_end_states + 1];', """
+let __e = StateGroup::new();
+let ghost e0 = __e;
+let mut initial_partition = vec![__e; number_of_end_states + 1];
+proof {
+    assert(initial_partition@.len() == tmap.len() + 1);
+    assert forall|g: int| 0 <= g < initial_partition@.len() implies (#[trigger] initial_partition@[g])@ =~= Set::<StateID>::empty() by {
+        axiom_cloned_group(e0, initial_partition@[g]);
+    }
+}
+""", why='the repeated element of vec![e; n] is let-bound so that ghost code can name it (E6)'),
+        ForLoop('for state in 0..dfa.states.len() {', it='__r1', label='initial_partition.assign', spec="""
+invariant
+    __r1.obeys_prophetic_iter_laws(), __r1.decrease() is Some,
+    0 <= k1 <= n, __r1.remaining().len() == n - k1,
+    forall|q: int| 0 <= q < __r1.remaining().len() ==> #[trigger] __r1.remaining()[q] == k1 + q,
+    terminal_map@ == tmap, initial_partition@.len() == tmap.len() + 1,
+    ip_ok(es, tmap, pv(initial_partition@), k1 as int),
+ensures k1 == n,
+decreases __r1.decrease()->0
+""", pre='let ghost mut k1: nat = 0; proof { assert(__r1.remaining() =~= Seq::new(n as nat, |i: int| i as usize)); }'),
+        Ins('after', 'for state in 0..dfa.states.len() {', """
+proof { assert(state == k1); }
+let ghost pv_in = pv(initial_partition@);
+"""),
+        Ins('after_stmt', 'let state: StateID = $_;', """
+proof { assert(state.0 == k1); }
+"""),
+        Replace('E3+E6', 'terminal_map.iter().position(|id| $body).unwrap()', """{
+    let __cl0 = |id: &TerminalID| -> (b: bool) ensures b == (*id == terminal_id) { $body };
+    let ghost gg = |t: TerminalID| t == terminal_id;
+    let mut __it = terminal_map.iter();
+    let ghost rem = __it.remaining();
+    proof {
+        assert(models_pred(__cl0, gg));
+        assert(rem.len() == tmap.len());
+        assert(forall|i: int| 0 <= i < rem.len() ==> *#[trigger] rem[i] == tmap[i]);
+    }
+    let __t0 = __it.position(__cl0);
+    proof {
+        assert(models_pred(__cl0, gg));
+        assert(es[k1 as int] == (true, terminal_id));
+        assert(tmap.contains(terminal_id));
+        let w = choose|w: int| 0 <= w < tmap.len() && tmap[w] == terminal_id;
+        match __t0 {
+            Some(kk) => { assert(gg(*rem[kk as int])); }
+            None => { assert(!gg(*rem[w])); }
+        }
+    }
+    __t0.unwrap()
+}""", why='closure typed and hoisted (E3); iter().position(..).unwrap() chain split (E6)'),
+        Ins('after_stmt', 'initial_partition[index + 1].insert(state);', """
+proof {
+    let g = index as int + 1;
+    let p1 = pv(initial_partition@);
+    assert(tmap[index as int] == terminal_id);
+    assert(p1[g] == pv_in[g].insert(StateID(k1 as u32)));
+    assert forall|h: int| 0 <= h < pv_in.len() && h != g implies p1[h] == pv_in[h] by { }
+    assert(es[k1 as int] == (true, tmap[g - 1]));
+}
+"""),
+        Ins('after_stmt', 'initial_partition[0].insert(state);', """
+proof {
+    let p1 = pv(initial_partition@);
+    assert(p1[0] == pv_in[0].insert(StateID(k1 as u32)));
+    assert forall|h: int| 0 <= h < pv_in.len() && h != 0 implies p1[h] == pv_in[h] by { }
+}
+"""),
+        Ins('block_end', 'for state in 0..dfa.states.len() {', """
+proof {
+    lemma_ip_step(es, tmap, pv_in, pv(initial_partition@), k1 as int);
+    k1 = k1 + 1;
+}
+"""),
+        Tail("""
+proof {
+    lemma_ip_final(*dfa, tmap, pv(__res@));
+}
+"""),
+    ])
+
+FUNCS = [
+    Raw(umin.UNIT['items'][0].text.replace('pub type StateGroup = BTreeSet<StateID>;\n', '').replace('pub struct Minimizer;\n', ''), label='trusted std contract: Iterator::position; derived Ord of StateID'),
+    Fn(F_MIN, 'TransitionsToPartitionGroups', 'new', ret='r', props=P, spec='ensures r.0@.len() == 0', external_body=True, trusted_reason='Self::default() of the derived Default: an empty vector (rule E4)'),
+    Fn(F_MIN, 'TransitionsToPartitionGroups', 'with_capacity', ret='r', props=P, spec='ensures r.0@.len() == 0'),
+    Fn(F_MIN, 'TransitionsToPartitionGroups', 'insert', props=P, spec='ensures final(self).0@ == old(self).0@.push((char_class, partition_group))'),
+    umin.find_group,
+    initial_partition,
+]
+
 UNIT = dict(
     name='u_mini',
     externs=['rustc_hash'],
@@ -34,9 +221,19 @@ use std::collections::{BTreeMap, BTreeSet};
 pub struct ExFxBuildHasher(rustc_hash::FxBuildHasher);
 #[verifier::external_body] pub struct CompiledLookahead { _private: () }
 ''', label='external types; opaque CompiledLookahead'),
-        Struct(F_DFA, 'StateData', derive=[]),
+        Struct(F_DFA, 'StateData', derive=['Clone']),
+        Fn(F_DFA, 'StateData', 'new', ret='r', props=P, spec='ensures r.transitions@.len() == 0'),
         Struct(F_DFA, 'CompiledDfa', derive=[]),
         RawFile(os.path.join(HERE, '..', 'common', 'clsf.rs'), 'clsf.rs'),
+        RawFile(os.path.join(HERE, '..', 'common', 'sort_specs.rs'), 'sort_specs.rs'),
         RawFile('mini_spec.rs'),
-    ],
+        RawFile('mini_part.rs'),
+        Raw('''
+pub type StateGroup = BTreeSet<StateID>;
+pub type Partition = Vec<StateGroup>;
+pub type TransitionMap = BTreeMap<StateID, BTreeMap<CharClassID, Vec<StateID>>>;
+pub struct Minimizer;
+''', label='type aliases of minimizer.rs'),
+        Struct(F_MIN, 'TransitionsToPartitionGroups', derive=['Debug', 'Default', 'Clone', 'PartialEq', 'Eq', 'PartialOrd', 'Ord'], structural=False),
+    ] + FUNCS,
 )
